@@ -640,21 +640,27 @@ Qed.
 
 Definition cfg0 (lim pas : nat) : cfg := {| limit := lim; passes := pas; chosen := [] |}.
 
-Lemma http_stream_c08 k es lim pas DI :
-  contract (dec_step k) es 1 lim pas DI ->
+Lemma http_stream_c08_gen k es lim pas cD DI :
+  cD <= 1 ->
+  contract (dec_step k) es cD lim pas DI ->
   c08_spec (http_run k false (cfg0 lim pas) es) es (bound lim pas (length es)) (length es) 2.
 Proof.
-  intros K.
-  apply (sim_c08 (http_step k (cfg0 lim pas) es) es (bound lim pas (length es)) 1
-                 (R_stream DI) (http_init false) 1 (length es) 2).
+  intros HcD K.
+  apply (sim_c08 (http_step k (cfg0 lim pas) es) es (bound lim pas (length es)) cD
+                 (R_stream DI) (http_init false) cD (length es) 2).
   - intros cc a m s s'. eapply stream_cont; eauto.
   - intros a m s e s'. eapply stream_emit; eauto.
   - intros a m s o cl. eapply stream_stop; eauto.
   - intros a m s e s'. eapply stream_cemit; eauto.
   - intros a m s o cl. eapply stream_cstop; eauto.
   - eapply stream_init; eauto.
-  - intros len. lia.
+  - intros len. nia.
 Qed.
+
+Lemma http_stream_c08 k es lim pas DI :
+  contract (dec_step k) es 1 lim pas DI ->
+  c08_spec (http_run k false (cfg0 lim pas) es) es (bound lim pas (length es)) (length es) 2.
+Proof. apply http_stream_c08_gen. lia. Qed.
 
 (* ---------------------------------------------------------------------------------- *)
 (* DecodeProvider over MultiPassReader *)
@@ -737,4 +743,612 @@ Proof.
   - unfold R_decode, pinit; cbn [p_ammo p_passes p_pos]. repeat split; try lia.
     destruct (0 =? n); lia.
   - intros len. lia.
+Qed.
+
+(* ---------------------------------------------------------------------------------- *)
+(* division facts used by the loops that compute pass = ammoNum / length *)
+
+Lemma div_ge_iff a n p : 0 < n -> (p <= a / n <-> p * n <= a).
+Proof.
+  intros Hn. split; intros H.
+  - pose proof (Nat.mul_div_le a n ltac:(lia)). nia.
+  - apply Nat.div_le_lower_bound; lia.
+Qed.
+
+Lemma div_lt_iff a n p : 0 < n -> (a / n < p <-> a < p * n).
+Proof.
+  intros Hn. pose proof (div_ge_iff a n p Hn). lia.
+Qed.
+
+Lemma div_succ a n :
+  0 < n -> S a / n = if a mod n =? n - 1 then S (a / n) else a / n.
+Proof.
+  intros Hn. pose proof (Nat.div_mod a n ltac:(lia)) as E.
+  pose proof (Nat.mod_upper_bound a n ltac:(lia)) as Hr.
+  destruct (a mod n =? n - 1) eqn:Eb.
+  - apply Nat.eqb_eq in Eb. symmetry. apply (Nat.div_unique (S a) n (S (a / n)) 0); lia.
+  - apply Nat.eqb_neq in Eb. symmetry. apply (Nat.div_unique (S a) n (a / n) (S (a mod n))); lia.
+Qed.
+
+(* jsonline array: pass = a / n, one step per Scan *)
+Definition DI_a (n lim pas : nat) (a m : nat) (d : dstate) : Prop :=
+  ammoNum d = a /\ passNum d = a / n
+  /\ (lim <> 0 -> a <= lim) /\ (pas <> 0 -> a <= pas * n).
+
+Lemma jsonarr_contract es lim pas :
+  es <> [] -> contract jsonarr_step es 0 lim pas (DI_a (length es) lim pas).
+Proof.
+  intros Hn. assert (Hlen : 0 < length es) by (destruct es; [congruence|cbn; lia]).
+  set (n := length es) in *.
+  constructor.
+  - unfold DI_a, dinit; cbn [ammoNum passNum pos inloop iter].
+    rewrite Nat.div_0_l by lia. repeat split; lia.
+  - intros cc a m d d' HI Hs. destruct d as [an pn ps il it].
+    unfold jsonarr_step in Hs; cbn [ammoNum passNum pos inloop iter] in Hs. fold n in Hs.
+    destruct (limit_faced lim _); [discriminate|].
+    destruct (n =? 0); [discriminate|].
+    destruct (nz pas && (pas <=? pn)); [discriminate|].
+    destruct (nth_error es (an mod n)); discriminate.
+  - intros cc a m d e d' HI Hs. destruct d as [an pn ps il it].
+    unfold DI_a in *; cbn [ammoNum passNum pos inloop iter] in *.
+    unfold jsonarr_step in Hs; cbn [ammoNum passNum pos inloop iter] in Hs. fold n in Hs.
+    destruct HI as (Ha & Hq & Hlim & Hpas). subst an pn.
+    destruct (limit_faced lim _) eqn:E1; [discriminate|].
+    destruct (n =? 0) eqn:E0; [discriminate|].
+    destruct (nz pas && (pas <=? a / n)) eqn:E2; [discriminate|].
+    destruct (nth_error es (a mod n)) as [e0|] eqn:En; [|discriminate].
+    injection Hs as <- <-. cbn [ammoNum passNum pos inloop iter].
+    assert (Hal : lim <> 0 -> a < lim) by (intros Hl0; b2p; lia).
+    assert (Hpl : pas <> 0 -> a < pas * n).
+    { intros Hp0. b2p. apply div_lt_iff; [exact Hlen|]. lia. }
+    split; [|split; [|split]].
+    + apply below_bound; assumption.
+    + symmetry. apply cyc_mod. exact En.
+    + repeat split.
+      * symmetry. apply div_succ. exact Hlen.
+      * intros Hl0. specialize (Hal Hl0). lia.
+      * intros Hp0. specialize (Hpl Hp0). lia.
+    + reflexivity.
+  - intros cc a m d e HI Hs. destruct d as [an pn ps il it].
+    unfold DI_a in *; cbn [ammoNum passNum pos inloop iter] in *.
+    unfold jsonarr_step in Hs; cbn [ammoNum passNum pos inloop iter] in Hs. fold n in Hs.
+    destruct HI as (Ha & Hq & Hlim & Hpas). subst an pn. right.
+    destruct (limit_faced lim _) eqn:E1.
+    { injection Hs as <-. b2p. split; [|left; split; [reflexivity|lia]].
+      apply bound_some_limit; [lia|specialize (Hlim ltac:(lia)); lia|exact Hpas]. }
+    destruct (n =? 0) eqn:E0; [b2p; lia|].
+    destruct (nz pas && (pas <=? a / n)) eqn:E2.
+    { injection Hs as <-. b2p. split; [|right; reflexivity].
+      destruct E2 as (Hp0 & Hge). apply div_ge_iff in Hge; [|exact Hlen].
+      apply bound_some_passes; [lia| |exact Hlim]. specialize (Hpas ltac:(lia)). lia. }
+    destruct (nth_error es (a mod n)) as [e0|] eqn:En; [discriminate|].
+    exfalso. apply nth_error_None in En. pose proof (Nat.mod_upper_bound a n ltac:(lia)). fold n in En. lia.
+Qed.
+
+(* ---------------------------------------------------------------------------------- *)
+(* the cyclic replay loop (scenario.Provider.Run; provider.runPreloaded) *)
+
+Lemma cyc_loop_facts lim pas len a :
+  0 < len -> le_opt a (bound lim pas len) ->
+  (* passes test *)
+  ((nz pas && (pas <=? a / len)) = true -> bound lim pas len = Some a)
+  /\ ((nz pas && (pas <=? a / len)) = false -> (nz lim && (lim <=? a)) = true -> bound lim pas len = Some a)
+  /\ ((nz pas && (pas <=? a / len)) = false -> (nz lim && (lim <=? a)) = false -> below a (bound lim pas len)).
+Proof.
+  intros Hlen Hle. apply le_bound in Hle. destruct Hle as (Hl & Hp).
+  split; [|split].
+  - intros H. b2p. destruct H as (Hp0 & Hge). apply div_ge_iff in Hge; [|exact Hlen].
+    apply bound_some_passes; [lia|specialize (Hp ltac:(lia)); lia|exact Hl].
+  - intros H1 H2. b2p. apply bound_some_limit; [lia|specialize (Hl ltac:(lia)); lia|exact Hp].
+  - intros H1 H2. b2p. apply below_bound; [lia|].
+    intros Hp0. apply div_lt_iff; [exact Hlen|]. lia.
+Qed.
+
+Lemma match_len_pos {X A} (l : list X) (x y : A) :
+  0 < length l -> match length l with 0 => x | S _ => y end = y.
+Proof. destruct l; cbn; [lia|reflexivity]. Qed.
+
+Definition R_scen (B : option nat) (a m : nat) (s : nat) : Prop := s = a /\ le_opt a B.
+
+Lemma scen_c08 es lim pas :
+  es <> [] ->
+  c08_spec (scen_run (cfg0 lim pas) es) es (bound lim pas (length es)) (length es) 1.
+Proof.
+  intros Hn. assert (Hlen : 0 < length es) by (destruct es; [congruence|cbn; lia]).
+  apply (sim_c08 (scen_step (cfg0 lim pas) es) es (bound lim pas (length es)) 0
+                 (R_scen (bound lim pas (length es))) 0 0 (length es) 1).
+  - intros cc a m s s' (-> & Hle) Hs. unfold scen_step in Hs.
+    rewrite match_len_pos in Hs by exact Hlen. destruct cc; [discriminate|].
+    cbn [limit passes cfg0] in Hs.
+    destruct (nz pas && _); [discriminate|]. destruct (nz lim && _); [discriminate|].
+    destruct (nth_error es _); discriminate.
+  - intros a m s e s' (-> & Hle) Hs. unfold scen_step in Hs.
+    rewrite match_len_pos in Hs by exact Hlen.
+    destruct (cyc_loop_facts lim pas (length es) a Hlen Hle) as (F1 & F2 & F3).
+    cbn [limit passes cfg0] in Hs.
+    destruct (nz pas && (pas <=? a / length es)) eqn:E1; [discriminate|].
+    destruct (nz lim && (lim <=? a)) eqn:E2; [discriminate|].
+    destruct (nth_error es (a mod length es)) as [e0|] eqn:Ee; [|discriminate].
+    injection Hs as <- <-.
+    specialize (F3 eq_refl eq_refl).
+    split; [exact F3|]. split; [symmetry; apply cyc_mod; exact Ee|].
+    split; [reflexivity|apply below_le_opt; exact F3].
+  - intros a m s o cl (-> & Hle) Hs. unfold scen_step in Hs.
+    rewrite match_len_pos in Hs by exact Hlen.
+    destruct (cyc_loop_facts lim pas (length es) a Hlen Hle) as (F1 & F2 & F3).
+    cbn [limit passes cfg0] in Hs.
+    destruct (nz pas && (pas <=? a / length es)) eqn:E1.
+    { injection Hs as <- <-. split; [apply F1; reflexivity|split; reflexivity]. }
+    destruct (nz lim && (lim <=? a)) eqn:E2.
+    { injection Hs as <- <-. split; [apply F2; reflexivity|split; reflexivity]. }
+    destruct (nth_error es (a mod length es)) as [e0|] eqn:Ee; [discriminate|].
+    exfalso. apply nth_error_None in Ee. pose proof (Nat.mod_upper_bound a (length es) ltac:(lia)). lia.
+  - intros a m s e s' _ Hs. unfold scen_step in Hs. destruct (length es); discriminate.
+  - intros a m s o cl _ Hs. unfold scen_step in Hs.
+    rewrite match_len_pos in Hs by exact Hlen. injection Hs as <- <-.
+    split; [right; left; reflexivity|reflexivity].
+  - split; [reflexivity|]. unfold bound, le_opt. destruct lim, pas; lia.
+  - intros len. lia.
+Qed.
+
+Lemma c08_spec_mono runf src B n C C' :
+  C <= C' -> c08_spec runf src B n C -> c08_spec runf src B n C'.
+Proof.
+  intros HC (P1 & P2 & P3 & P4). unfold c08_spec. split; [|split; [|split]].
+  - intros cancel fuel. destruct (P1 cancel fuel) as (A1 & A2 & A3 & A4 & A5).
+    split; [exact A1|]. split; [exact A2|]. split; [exact A3|]. split; [|exact A5].
+    eapply Nat.le_trans; [exact A4|]. apply Nat.mul_le_mono_r. exact HC.
+  - intros b fuel HB Hf. apply (P2 b fuel HB).
+    eapply Nat.le_lt_trans; [|exact Hf]. apply Nat.mul_le_mono_r. exact HC.
+  - intros k fuel Hf. apply (P3 k fuel).
+    eapply Nat.le_lt_trans; [|exact Hf]. apply Nat.mul_le_mono_r. exact HC.
+  - intros HB fuel. destruct (P4 HB fuel) as (A1 & A2). split; [exact A1|].
+    eapply Nat.le_trans; [exact A2|]. apply Nat.mul_le_mono_r. exact HC.
+Qed.
+
+(* ---------------------------------------------------------------------------------- *)
+(* http provider with preload: loadAmmo (one unbounded pass) then runPreloaded *)
+
+Lemma filter_all_chosen (l : list entry) :
+  filter (fun e => is_chosen (e_tag e) []) l = l.
+Proof. induction l as [|x r IH]; cbn; [reflexivity|]. f_equal. exact IH. Qed.
+
+Lemma cyc_prefix_S src a : cyc_prefix src (S a) = cyc_prefix src a ++ [cyc src a].
+Proof. unfold cyc_prefix. rewrite seq_S, map_app. reflexivity. Qed.
+
+Lemma match_nonempty {X A} (l : list X) (x y : A) :
+  l <> [] -> match l with [] => x | _ :: _ => y end = y.
+Proof. destruct l; [congruence|reflexivity]. Qed.
+
+Lemma budget_again t md md' m : md' < md -> t + md + 2 <= m -> m - 1 < m /\ t + md' + 2 <= m - 1.
+Proof. lia. Qed.
+
+Lemma budget_ammo t cD md m : S t * (cD + 1) + md + 2 <= m -> m - 1 < m /\ t * (cD + 1) + cD + 2 <= m - 1.
+Proof. cbn [Nat.mul]. set (x := t * (cD + 1)). lia. Qed.
+
+Section HttpPreload.
+  Variable k : dkind.
+  Variable es : list entry.
+  Variables lim pas cD : nat.
+  Variable DI : nat -> nat -> dstate -> Prop.
+  Hypothesis K : contract (dec_step k) es cD 0 1 DI.
+  Hypothesis Hn : es <> [].
+
+  Local Notation n := (length es).
+  Local Notation B := (bound lim pas (length es)).
+  Local Notation cf := (cfg0 lim pas).
+
+  Definition R_pre (a m : nat) (s : hstate) : Prop :=
+    (a = 0 /\ exists d acc a' md,
+        s = HLoad d acc /\ DI a' md d /\ acc = cyc_prefix es a' /\ a' <= n
+        /\ (n - a') * (cD + 1) + md + 2 <= m)
+    \/ (s = HPre es a /\ le_opt a B).
+
+  Lemma Hlen_pre : 0 < n.
+  Proof. unfold n. destruct es; [congruence|cbn; lia]. Qed.
+
+  Lemma bound_load a' : bound 0 1 (length es) = Some a' -> a' = n.
+  Proof. unfold bound. intros H. injection H as <-. unfold n. lia. Qed.
+
+  Lemma pre_cont cc a m s s' :
+    R_pre a m s -> http_step k cf es cc s = Cont s' -> exists m', m' < m /\ R_pre a m' s'.
+  Proof.
+    intros [(-> & d & acc & a' & md & -> & HI & Hacc & Ha' & Hm)|(-> & Hle)] Hs.
+    - cbn [http_step] in Hs.
+      destruct (dec_step k cc 0 1 es d) as [d'|e d'|e] eqn:Ed.
+      + injection Hs as <-. destruct (k_again _ _ _ _ _ _ K _ _ _ _ _ HI Ed) as (md' & Hlt & HI').
+        destruct (budget_again _ _ _ _ Hlt Hm) as (Hb1 & Hb2).
+        exists (m - 1). split; [exact Hb1|]. left. split; [reflexivity|].
+        exists d', acc, a', md'. repeat split; auto.
+      + injection Hs as <-.
+        destruct (k_ammo _ _ _ _ _ _ K _ _ _ _ _ _ HI Ed) as (Hb & -> & HI' & _).
+        assert (a' < n) as Hlt.
+        { unfold below, bound in Hb. fold n in Hb. lia. }
+        replace (n - a') with (S (n - S a')) in Hm by lia.
+        destruct (budget_ammo _ _ _ _ Hm) as (Hb1 & Hb2).
+        exists (m - 1). split; [exact Hb1|]. left. split; [reflexivity|].
+        exists d', (acc ++ [cyc es a']), (S a'), cD. repeat split; auto.
+        rewrite cyc_prefix_S, Hacc. reflexivity.
+      + destruct (k_err _ _ _ _ _ _ K _ _ _ _ _ HI Ed) as [(_ & ->)|(HB & He)]; [discriminate|].
+        apply bound_load in HB. subst a'.
+        destruct He as [(_ & He)| ->]; [congruence|].
+        cbn [chosen cf cfg0] in Hs. rewrite filter_all_chosen in Hs.
+        rewrite Hacc in Hs. unfold n in Hs. rewrite cyc_prefix_full in Hs.
+        rewrite match_nonempty in Hs by exact Hn.
+        injection Hs as <-. exists 0. split; [lia|]. right. split; [reflexivity|].
+        unfold B, bound, le_opt. destruct lim, pas; lia.
+    - cbn [http_step] in Hs. destruct cc; [discriminate|].
+      rewrite match_len_pos in Hs by exact Hlen_pre.
+      cbn [limit passes cf cfg0] in Hs.
+      destruct (nz pas && _); [discriminate|]. destruct (nz lim && _); [discriminate|].
+      destruct (nth_error es _); discriminate.
+  Qed.
+
+  Lemma pre_emit a m s e s' :
+    R_pre a m s -> http_step k cf es false s = Emit e s' ->
+    below a B /\ e = cyc es a /\ R_pre (S a) 0 s'.
+  Proof.
+    intros [(-> & d & acc & a' & md & -> & HI & Hacc & Ha' & Hm)|(-> & Hle)] Hs.
+    - cbn [http_step] in Hs.
+      destruct (dec_step k false 0 1 es d) as [d'|e0 d'|e0]; try discriminate.
+      destruct e0; try discriminate.
+      destruct (filter _ acc); discriminate.
+    - cbn [http_step] in Hs. rewrite match_len_pos in Hs by exact Hlen_pre.
+      destruct (cyc_loop_facts lim pas n a Hlen_pre Hle) as (F1 & F2 & F3).
+      cbn [limit passes cf cfg0] in Hs. fold n in Hs.
+      destruct (nz pas && (pas <=? a / n)) eqn:E1; [discriminate|].
+      destruct (nz lim && (lim <=? a)) eqn:E2; [discriminate|].
+      destruct (nth_error es (a mod n)) as [e0|] eqn:Ee; [|discriminate].
+      injection Hs as <- <-. specialize (F3 eq_refl eq_refl).
+      split; [exact F3|]. split; [symmetry; apply cyc_mod; exact Ee|].
+      right. split; [reflexivity|apply below_le_opt; exact F3].
+  Qed.
+
+  Lemma pre_stop a m s o cl :
+    R_pre a m s -> http_step k cf es false s = Stop o cl -> B = Some a /\ o = Ok /\ cl = true.
+  Proof.
+    intros [(-> & d & acc & a' & md & -> & HI & Hacc & Ha' & Hm)|(-> & Hle)] Hs.
+    - exfalso. cbn [http_step] in Hs.
+      destruct (dec_step k false 0 1 es d) as [d'|e0 d'|e0] eqn:Ed; try discriminate.
+      destruct (k_err _ _ _ _ _ _ K _ _ _ _ _ HI Ed) as [(Hc & _)|(HB & He)]; [discriminate|].
+      apply bound_load in HB. subst a'.
+      destruct He as [(_ & He)| ->]; [congruence|].
+      cbn [chosen cf cfg0] in Hs. rewrite filter_all_chosen in Hs.
+      rewrite Hacc in Hs. unfold n in Hs. rewrite cyc_prefix_full in Hs.
+      rewrite match_nonempty in Hs by exact Hn. discriminate.
+    - cbn [http_step] in Hs. rewrite match_len_pos in Hs by exact Hlen_pre.
+      destruct (cyc_loop_facts lim pas n a Hlen_pre Hle) as (F1 & F2 & F3).
+      cbn [limit passes cf cfg0] in Hs. fold n in Hs.
+      destruct (nz pas && (pas <=? a / n)) eqn:E1.
+      { injection Hs as <- <-. split; [apply F1; reflexivity|split; reflexivity]. }
+      destruct (nz lim && (lim <=? a)) eqn:E2.
+      { injection Hs as <- <-. split; [apply F2; reflexivity|split; reflexivity]. }
+      destruct (nth_error es (a mod n)) as [e0|] eqn:Ee; [discriminate|].
+      exfalso. apply nth_error_None in Ee. pose proof (Nat.mod_upper_bound a n ltac:(pose proof Hlen_pre; lia)).
+      unfold n in *. lia.
+  Qed.
+
+  Lemma pre_cemit a m s e s' :
+    R_pre a m s -> http_step k cf es true s = Emit e s' -> False.
+  Proof.
+    intros [(-> & d & acc & a' & md & -> & HI & Hacc & Ha' & Hm)|(-> & Hle)] Hs.
+    - cbn [http_step] in Hs.
+      destruct (dec_step k true 0 1 es d) as [d'|e0 d'|e0]; try discriminate.
+      destruct e0; try discriminate.
+      destruct (filter _ acc); discriminate.
+    - cbn [http_step] in Hs. discriminate.
+  Qed.
+
+  Lemma pre_cstop a m s o cl :
+    R_pre a m s -> http_step k cf es true s = Stop o cl -> clean_or_cancelled o /\ cl = true.
+  Proof.
+    intros [(-> & d & acc & a' & md & -> & HI & Hacc & Ha' & Hm)|(-> & Hle)] Hs.
+    - cbn [http_step] in Hs.
+      destruct (dec_step k true 0 1 es d) as [d'|e0 d'|e0] eqn:Ed; try discriminate.
+      destruct (k_err _ _ _ _ _ _ K _ _ _ _ _ HI Ed) as [(_ & ->)|(HB & He)].
+      + injection Hs as <- <-. split; [right; right; reflexivity|reflexivity].
+      + exfalso. apply bound_load in HB. subst a'.
+        destruct He as [(_ & He)| ->]; [congruence|].
+        cbn [chosen cf cfg0] in Hs. rewrite filter_all_chosen in Hs.
+        rewrite Hacc in Hs. unfold n in Hs. rewrite cyc_prefix_full in Hs.
+        rewrite match_nonempty in Hs by exact Hn. discriminate.
+    - cbn [http_step] in Hs. injection Hs as <- <-.
+      split; [right; left; reflexivity|reflexivity].
+  Qed.
+
+  Lemma pre_init : R_pre 0 (n * (cD + 1) + cD + 2) (http_init true).
+  Proof.
+    left. split; [reflexivity|]. exists dinit, [], 0, cD.
+    split; [reflexivity|]. split; [apply (k_init _ _ _ _ _ _ K)|].
+    split; [reflexivity|]. split; [lia|]. rewrite Nat.sub_0_r. lia.
+  Qed.
+End HttpPreload.
+
+Lemma http_preload_c08 k es lim pas cD DI :
+  cD <= 1 -> es <> [] -> contract (dec_step k) es cD 0 1 DI ->
+  c08_spec (http_run k true (cfg0 lim pas) es) es (bound lim pas (length es)) (length es) 4.
+Proof.
+  intros HcD Hn K.
+  apply (sim_c08 (http_step k (cfg0 lim pas) es) es (bound lim pas (length es)) 0
+                 (R_pre es lim pas cD DI) (http_init true)
+                 (length es * (cD + 1) + cD + 2) (length es) 4).
+  - intros cc a m s s'. eapply pre_cont; eauto.
+  - intros a m s e s'. eapply pre_emit; eauto.
+  - intros a m s o cl. eapply pre_stop; eauto.
+  - intros a m s e s'. eapply pre_cemit; eauto.
+  - intros a m s o cl. eapply pre_cstop; eauto.
+  - eapply pre_init; eauto.
+  - intros len. nia.
+Qed.
+
+(* ---------------------------------------------------------------------------------- *)
+(* grpc/json provider *)
+
+Definition R_g (n lim pas : nat) (a m : nat) (g : gstate) : Prop :=
+  g_ammo g = a /\ (lim <> 0 -> a <= lim)
+  /\ (g_inner g = false ->
+      g_pos g = 0 /\ a = g_pass g * n /\ (pas <> 0 -> g_pass g < pas) /\ (lim <> 0 -> a < lim) /\ 1 <= m)
+  /\ (g_inner g = true ->
+      1 <= g_pass g /\ g_pos g <= n /\ a = (g_pass g - 1) * n + g_pos g
+      /\ (pas <> 0 -> g_pass g <= pas) /\ (if g_pos g =? n then 2 else 0) <= m).
+
+Lemma g_after_cases n lim pas a m ga gp gs :
+  0 < n -> ga = a -> (lim <> 0 -> a <= lim) -> 1 <= gp -> (pas <> 0 -> gp <= pas) ->
+  a <= gp * n -> (a = gp * n \/ (lim <> 0 /\ lim <= a)) -> 2 <= m ->
+  match g_after (cfg0 lim pas) {| g_ammo := ga; g_pass := gp; g_pos := gs; g_inner := true |} with
+  | Stop o cl => o = Ok /\ cl = true /\ bound lim pas n = Some a
+  | Cont g' => R_g n lim pas a 1 g'
+  | Emit _ _ => False
+  end.
+Proof.
+  intros Hn -> Hlim Hp1 Hpas Hle Hor Hm. unfold g_after. cbn [limit passes cfg0 g_ammo g_pass].
+  destruct (nz lim && (lim <=? a)) eqn:E1.
+  { split; [reflexivity|]. split; [reflexivity|]. b2p.
+    apply bound_some_limit; [lia|specialize (Hlim ltac:(lia)); lia|].
+    intros Hp0. specialize (Hpas Hp0). nia. }
+  destruct (nz pas && (pas <=? gp)) eqn:E2.
+  { split; [reflexivity|]. split; [reflexivity|]. b2p.
+    destruct Hor as [Hor|Hor]; [|lia].
+    apply bound_some_passes; [lia| |exact Hlim].
+    specialize (Hpas ltac:(lia)). assert (gp = pas) by lia. subst gp. exact Hor. }
+  unfold R_g; cbn [g_ammo g_pass g_pos g_inner]. b2p.
+  split; [reflexivity|]. split; [exact Hlim|]. split; [|intros; discriminate].
+  intros _. destruct Hor as [Hor|Hor]; [|lia].
+  repeat split; try lia.
+Qed.
+
+Lemma grpcjson_c08 es lim pas :
+  es <> [] ->
+  c08_spec (grpcjson_run (cfg0 lim pas) es) es (bound lim pas (length es)) (length es) 3.
+Proof.
+  intros Hn. assert (Hlen : 0 < length es) by (destruct es; [congruence|cbn; lia]).
+  apply (sim_c08 (grpcjson_step (cfg0 lim pas) es) es (bound lim pas (length es)) 2
+                 (R_g (length es) lim pas) ginit 1 (length es) 3).
+  - (* Cont *)
+    intros cc a m [ga gp gs gi] s' HR Hs.
+    unfold R_g in HR; cbn [g_ammo g_pass g_pos g_inner] in HR.
+    destruct HR as (Ha & Hlim & Hout & Hin).
+    unfold grpcjson_step in Hs; cbn [g_ammo g_pass g_pos g_inner] in Hs.
+    destruct gi; cbn [negb] in Hs.
+    + destruct (Hin eq_refl) as (Hp1 & Hps & Hq & Hpas & Hm).
+      destruct (nth_error es gs) as [e|] eqn:En.
+      * pose proof (nth_error_in _ _ _ En) as Hlt.
+        cbn [limit chosen cfg0 is_chosen negb] in Hs.
+        destruct ((lim =? 0) || (ga <? lim)) eqn:E1; [destruct cc; discriminate|].
+        pose proof (g_after_cases (length es) lim pas a m ga gp (S gs) Hlen Ha Hlim Hp1 Hpas) as G.
+        rewrite Hs in G.
+        assert (Hle : a <= gp * length es) by nia.
+        assert (Hor : a = gp * length es \/ (lim <> 0 /\ lim <= a)) by (right; b2p; lia).
+        assert (2 <= m \/ m < 2) as [Hm2|Hm2] by lia.
+        { exists 1. split; [lia|]. apply G; auto. }
+        (* m < 2: the continuation of g_after is impossible here, the limit test stops *)
+        exfalso. unfold g_after in Hs. cbn [limit passes cfg0 g_ammo g_pass] in Hs.
+        b2p. destruct (nz lim && (lim <=? ga)) eqn:E3; [discriminate|]. b2p. lia.
+      * apply nth_error_eof in En; [|exact Hps]. subst gs. rewrite Nat.eqb_refl in Hm.
+        pose proof (g_after_cases (length es) lim pas a m ga gp (length es) Hlen Ha Hlim Hp1 Hpas) as G.
+        rewrite Hs in G.
+        exists 1. split; [lia|]. apply G; [nia|left; nia|lia].
+    + destruct (Hout eq_refl) as (Hps & Hq & Hpas & Hal & Hm).
+      injection Hs as <-. exists (m - 1). split; [lia|].
+      unfold R_g; cbn [g_ammo g_pass g_pos g_inner].
+      split; [exact Ha|]. split; [exact Hlim|]. split; [intros; discriminate|]. intros _.
+      subst gs. repeat split; try lia.
+      all: try (rewrite Nat.sub_succ, Nat.sub_0_r; lia).
+      all: try (intros Hp0; specialize (Hpas Hp0); lia).
+      all: try (destruct (0 =? length es) eqn:E; [b2p; lia|lia]).
+  - (* Emit *)
+    intros a m [ga gp gs gi] e s' HR Hs.
+    unfold R_g in HR; cbn [g_ammo g_pass g_pos g_inner] in HR.
+    destruct HR as (Ha & Hlim & Hout & Hin).
+    unfold grpcjson_step in Hs; cbn [g_ammo g_pass g_pos g_inner] in Hs.
+    destruct gi; cbn [negb] in Hs; [|discriminate].
+    destruct (Hin eq_refl) as (Hp1 & Hps & Hq & Hpas & Hm).
+    destruct (nth_error es gs) as [e0|] eqn:En.
+    2:{ unfold g_after in Hs. destruct (nz _ && _); [discriminate|]. destruct (nz _ && _); discriminate. }
+    pose proof (nth_error_in _ _ _ En) as Hlt.
+    cbn [limit chosen cfg0 is_chosen negb] in Hs.
+    destruct ((lim =? 0) || (ga <? lim)) eqn:E1.
+    2:{ unfold g_after in Hs. destruct (nz _ && _); [discriminate|]. destruct (nz _ && _); discriminate. }
+    injection Hs as <- <-. subst ga.
+    assert (Hal : lim <> 0 -> a < lim) by (intros Hl0; b2p; lia).
+    split; [|split].
+    + apply below_bound; [exact Hal|]. intros Hp0. specialize (Hpas Hp0). nia.
+    + symmetry. apply (cyc_nth_error es a (gp - 1) gs); [lia|exact En].
+    + unfold R_g; cbn [g_ammo g_pass g_pos g_inner].
+      split; [reflexivity|]. split; [intros Hl0; specialize (Hal Hl0); lia|].
+      split; [intros; discriminate|]. intros _.
+      repeat split; try lia. destruct (S gs =? length es); lia.
+  - (* Stop, not cancelled *)
+    intros a m [ga gp gs gi] o cl HR Hs.
+    unfold R_g in HR; cbn [g_ammo g_pass g_pos g_inner] in HR.
+    destruct HR as (Ha & Hlim & Hout & Hin).
+    unfold grpcjson_step in Hs; cbn [g_ammo g_pass g_pos g_inner] in Hs.
+    destruct gi; cbn [negb] in Hs; [|discriminate].
+    destruct (Hin eq_refl) as (Hp1 & Hps & Hq & Hpas & Hm).
+    destruct (nth_error es gs) as [e0|] eqn:En.
+    + pose proof (nth_error_in _ _ _ En) as Hlt.
+      cbn [limit chosen cfg0 is_chosen negb] in Hs.
+      destruct ((lim =? 0) || (ga <? lim)) eqn:E1; [discriminate|].
+      assert (Hle : a <= gp * length es) by nia.
+      assert (Hor : a = gp * length es \/ (lim <> 0 /\ lim <= a)) by (right; b2p; lia).
+      unfold g_after in Hs. cbn [limit passes cfg0 g_ammo g_pass] in Hs.
+      destruct (nz lim && (lim <=? ga)) eqn:E3.
+      * injection Hs as <- <-. split; [|split; reflexivity]. b2p.
+        apply bound_some_limit; [lia|specialize (Hlim ltac:(lia)); lia|].
+        intros Hp0. specialize (Hpas Hp0). nia.
+      * exfalso. b2p. lia.
+    + apply nth_error_eof in En; [|exact Hps]. subst gs. rewrite Nat.eqb_refl in Hm.
+      pose proof (g_after_cases (length es) lim pas a m ga gp (length es) Hlen Ha Hlim Hp1 Hpas) as G.
+      rewrite Hs in G.
+      destruct G as (-> & -> & HB); [nia|left; nia|lia|].
+      split; [exact HB|split; reflexivity].
+  - (* no Emit once cancelled *)
+    intros a m [ga gp gs gi] e s' HR Hs.
+    unfold grpcjson_step in Hs; cbn [g_ammo g_pass g_pos g_inner] in Hs.
+    destruct gi; cbn [negb] in Hs; [|discriminate].
+    destruct (nth_error es gs) as [e0|].
+    + cbn [limit chosen cfg0 is_chosen negb] in Hs.
+      destruct ((lim =? 0) || (ga <? lim)); [discriminate|].
+      unfold g_after in Hs. destruct (nz _ && _); [discriminate|]. destruct (nz _ && _); discriminate.
+    + unfold g_after in Hs. destruct (nz _ && _); [discriminate|]. destruct (nz _ && _); discriminate.
+  - (* Stop when cancelled *)
+    intros a m [ga gp gs gi] o cl HR Hs.
+    unfold grpcjson_step in Hs; cbn [g_ammo g_pass g_pos g_inner] in Hs.
+    destruct gi; cbn [negb] in Hs; [|discriminate].
+    destruct (nth_error es gs) as [e0|].
+    + cbn [limit chosen cfg0 is_chosen negb] in Hs.
+      destruct ((lim =? 0) || (ga <? lim)); [injection Hs as <- <-; split; [left|]; reflexivity|].
+      unfold g_after in Hs.
+      destruct (nz _ && _); [injection Hs as <- <-; split; [left|]; reflexivity|].
+      destruct (nz _ && _); [injection Hs as <- <-; split; [left|]; reflexivity|discriminate].
+    + unfold g_after in Hs.
+      destruct (nz _ && _); [injection Hs as <- <-; split; [left|]; reflexivity|].
+      destruct (nz _ && _); [injection Hs as <- <-; split; [left|]; reflexivity|discriminate].
+  - unfold R_g, ginit; cbn [g_ammo g_pass g_pos g_inner].
+    split; [reflexivity|]. split; [lia|]. split; [|intros; discriminate].
+    intros _. repeat split; lia.
+  - intros len. lia.
+Qed.
+
+(* ---------------------------------------------------------------------------------- *)
+(* every provider kind *)
+
+Theorem all_kinds_c08 (k : pkind) es lim pas :
+  es <> [] ->
+  c08_spec (run k (cfg0 lim pas) es) es (bound lim pas (length es)) (length es) 4.
+Proof.
+  intros Hn. destruct k as [d pre| | |]; cbn [run].
+  - destruct pre.
+    + destruct d.
+      * exact (http_preload_c08 DUri es lim pas 1 _ (le_n 1) Hn (uri_contract es 0 1 Hn)).
+      * exact (http_preload_c08 DUripost es lim pas 1 _ (le_n 1) Hn (uripost_contract es 0 1 Hn)).
+      * exact (http_preload_c08 DRaw es lim pas 1 _ (le_n 1) Hn (raw_contract es 0 1 Hn)).
+      * exact (http_preload_c08 DJsonl es lim pas 1 _ (le_n 1) Hn (jsonl_contract es 0 1 Hn)).
+      * exact (http_preload_c08 DJsonArr es lim pas 0 _ (le_S 0 0 (le_n 0)) Hn (jsonarr_contract es 0 1 Hn)).
+    + apply (c08_spec_mono _ _ _ _ 2 4); [lia|].
+      destruct d.
+      * exact (http_stream_c08 DUri es lim pas _ (uri_contract es lim pas Hn)).
+      * exact (http_stream_c08 DUripost es lim pas _ (uripost_contract es lim pas Hn)).
+      * exact (http_stream_c08 DRaw es lim pas _ (raw_contract es lim pas Hn)).
+      * exact (http_stream_c08 DJsonl es lim pas _ (jsonl_contract es lim pas Hn)).
+      * exact (http_stream_c08_gen DJsonArr es lim pas 0 _ (le_S 0 0 (le_n 0)) (jsonarr_contract es lim pas Hn)).
+  - apply (c08_spec_mono _ _ _ _ 1 4); [lia|]. exact (scen_c08 es lim pas Hn).
+  - apply (c08_spec_mono _ _ _ _ 3 4); [lia|]. exact (grpcjson_c08 es lim pas Hn).
+  - apply (c08_spec_mono _ _ _ _ 2 4); [lia|]. exact (decode_c08 es lim pas Hn).
+Qed.
+
+(* ---------------------------------------------------------------------------------- *)
+(* the three statements of C08, for every kind, limit, passes, file of n >= 1 entries *)
+
+Definition step_const : nat := 4.
+
+Lemma firstn_seq_min m a k : firstn m (seq a k) = seq a (Nat.min m k).
+Proof.
+  revert a k; induction m as [|m IH]; intros a k; [reflexivity|].
+  destruct k as [|k]; [reflexivity|]. cbn [seq firstn Nat.min]. f_equal. apply IH.
+Qed.
+
+Lemma c08_count (k : pkind) es lim pas :
+  es <> [] ->
+  let n := length es in
+  let runk := run k (cfg0 lim pas) es in
+  (* with a bound: exactly min of the non-zero bounds, the cyclic prefix of that length *)
+  (forall b fuel, bound lim pas n = Some b -> step_const * (b + n + 1) < fuel ->
+     delivered (runk None fuel) = cyc_prefix es b /\ length (delivered (runk None fuel)) = b)
+  (* never more than the bound or than what was sent before cancellation; always a cyclic prefix *)
+  /\ (forall cancel fuel,
+        delivered (runk cancel fuel) = cyc_prefix es (length (delivered (runk cancel fuel)))
+        /\ le_opt (length (delivered (runk cancel fuel))) (bound lim pas n)
+        /\ (forall j, cancel = Some j -> length (delivered (runk cancel fuel)) <= j))
+  (* unbounded: every prefix of the cyclic sequence is delivered *)
+  /\ (bound lim pas n = None -> forall m, exists fuel,
+        m <= length (delivered (runk None fuel))
+        /\ firstn m (delivered (runk None fuel)) = cyc_prefix es m).
+Proof.
+  intros Hn n runk. destruct (all_kinds_c08 k es lim pas Hn) as (P1 & P2 & P3 & P4).
+  fold n in P1, P2, P3, P4. fold runk in P1, P2, P3, P4.
+  split; [|split].
+  - intros b fuel HB Hf. destruct (P2 b fuel HB Hf) as (A1 & _). split; [exact A1|].
+    rewrite A1. unfold cyc_prefix. rewrite map_length, seq_length. reflexivity.
+  - intros cancel fuel. destruct (P1 cancel fuel) as (A1 & A2 & A3 & _). auto.
+  - intros HB m. exists (step_const * (m + n + 1) + step_const).
+    destruct (P4 HB (step_const * (m + n + 1) + step_const)) as (_ & A2).
+    destruct (P1 None (step_const * (m + n + 1) + step_const)) as (A1 & _).
+    set (x := runk None (step_const * (m + n + 1) + step_const)) in *.
+    assert (m <= length (delivered x)) as Hm by (unfold step_const in *; lia).
+    split; [exact Hm|].
+    rewrite A1. unfold cyc_prefix. rewrite firstn_map, firstn_seq_min.
+    rewrite Nat.min_l by exact Hm. reflexivity.
+Qed.
+
+Lemma c08_clean_end (k : pkind) es lim pas b fuel :
+  es <> [] -> bound lim pas (length es) = Some b -> step_const * (b + length es + 1) < fuel ->
+  let r := run k (cfg0 lim pas) es None fuel in
+  out r = Ok /\ closed r = true /\ acquire_after r = AcqEndOfAmmo.
+Proof.
+  intros Hn HB Hf r. destruct (all_kinds_c08 k es lim pas Hn) as (_ & P2 & _).
+  destruct (P2 b fuel HB Hf) as (_ & A2 & A3). fold r in A2, A3.
+  split; [exact A2|]. split; [exact A3|]. unfold acquire_after. rewrite A3. reflexivity.
+Qed.
+
+Lemma c08_no_spin (k : pkind) es lim pas :
+  es <> [] ->
+  let n := length es in
+  let runk := run k (cfg0 lim pas) es in
+  (* steps are linear in deliveries: no loop iteration sequence of unbounded length without a delivery *)
+  (forall cancel fuel,
+      steps (runk cancel fuel) <= step_const * (length (delivered (runk cancel fuel)) + n + 1)
+      /\ (out (runk cancel fuel) = OutOfFuel -> steps (runk cancel fuel) = fuel))
+  (* a bounded run terminates within that many steps *)
+  /\ (forall b fuel, bound lim pas n = Some b -> step_const * (b + n + 1) < fuel ->
+        out (runk None fuel) <> OutOfFuel)
+  (* cancelled after j items: returns within the budget, sink closed (consumers see end of ammo),
+     result nil or context.Canceled, and nothing more was delivered *)
+  /\ (forall j fuel, step_const * (j + n + 1) < fuel ->
+        let r := runk (Some j) fuel in
+        out r <> OutOfFuel /\ closed r = true /\ acquire_after r = AcqEndOfAmmo
+        /\ clean_or_cancelled (out r) /\ length (delivered r) <= j).
+Proof.
+  intros Hn n runk. destruct (all_kinds_c08 k es lim pas Hn) as (P1 & P2 & P3 & P4).
+  fold n in P1, P2, P3, P4. fold runk in P1, P2, P3, P4.
+  split; [|split].
+  - intros cancel fuel. destruct (P1 cancel fuel) as (_ & _ & _ & A4 & A5). auto.
+  - intros b fuel HB Hf. destruct (P2 b fuel HB Hf) as (_ & A2 & _). congruence.
+  - intros j fuel Hf r. destruct (P3 j fuel Hf) as (A1 & A2 & A3 & _). fold r in A1, A2, A3.
+    destruct (P1 (Some j) fuel) as (_ & _ & A6 & _). fold r in A6.
+    split; [exact A1|]. split; [exact A2|].
+    split; [unfold acquire_after; rewrite A2; reflexivity|]. split; [exact A3|].
+    apply A6. reflexivity.
+Qed.
+
+Lemma bound_is_min lim pas n :
+  bound 0 0 n = None
+  /\ (lim <> 0 -> bound lim 0 n = Some lim)
+  /\ (pas <> 0 -> bound 0 pas n = Some (pas * n))
+  /\ (lim <> 0 -> pas <> 0 -> bound lim pas n = Some (Nat.min lim (pas * n))).
+Proof.
+  split; [reflexivity|]. split; [|split].
+  - destruct lim; [congruence|reflexivity].
+  - destruct pas; [congruence|reflexivity].
+  - destruct lim; [congruence|]. destruct pas; [congruence|reflexivity].
 Qed.
